@@ -211,11 +211,25 @@ Theorem c07_single_statement_generic : forall T, tmpls_safe T = true -> forall s
 Proof. exact single_statement. Qed.
 Print Assumptions c07_single_statement_generic.
 
-(* full statement, still FALSE (residual of F3: the `neg` template is now [-{l:14}], which parenthesises a negated operand
-   but not a negative number literal or an s-string starting with a minus sign: `--3`):
-     Theorem c07_single_statement : forall s, Out all_tmpls s -> no_opener s = true.   i.e.  tmpls_safe all_tmpls = true *)
-Theorem c07_single_statement_refuted : exists s, Out all_tmpls s /\ no_opener s = false.
-Proof. apply single_statement_refuted. vm_compute. tauto. Qed.
+(* The `neg` template [-{l:14}] parenthesises a negated operand, but a negative number literal or an s-string starting with a
+   minus sign is an atom of full strength: the renderer [Out] produces `--3` (finding N11).  fixes/C07-N11 puts a guard into
+   translate_operator (an operand whose text starts with `-` behind text that ends in `-` is parenthesised): the renderer is then
+   [Outg].  Both states, selected by the regenerated flag [fix_n11 head_fixes] (read off operators.rs):
+     not repaired: the template set is not safe for [Out], and [Out] produces an opener;
+     repaired:     the template set is safe for the guarded renderer, and no text [Outg] produces has [;], [--] or [/*]. *)
+Definition tmpls_ok (fixed : bool) (T : list tmpl) : bool := if fixed then tmpls_safe_g T else tmpls_safe T.
+Theorem c07_single_statement_state : tmpls_ok (fix_n11 GenDialectFeat.head_fixes) all_tmpls = fix_n11 GenDialectFeat.head_fixes.
+Proof. vm_compute. reflexivity. Qed.
+Print Assumptions c07_single_statement_state.
+
+Theorem c07_single_statement : fix_n11 GenDialectFeat.head_fixes = true -> forall s, Outg all_tmpls s -> no_opener s = true.
+Proof.
+  intros Hf. apply single_statement_guarded. pose proof c07_single_statement_state as H. rewrite Hf in H. exact H.
+Qed.
+Print Assumptions c07_single_statement.
+
+Theorem c07_single_statement_refuted : fix_n11 GenDialectFeat.head_fixes = false -> exists s, Out all_tmpls s /\ no_opener s = false.
+Proof. intros _. apply single_statement_refuted. vm_compute. tauto. Qed.
 Print Assumptions c07_single_statement_refuted.
 
 Theorem c07_templates_safe_except_known : tmpls_safe unknown_tmpls = true.
